@@ -174,6 +174,14 @@ def discarded_results(ctx, funcs, rule='DISCARD'):
             rets = [r for r in walk_local(f.node) if isinstance(r, ast.Return)]
             if not rets or any(r.value is None or (isinstance(r.value, ast.Constant) and r.value.value is None) for r in rets):
                 continue
+            # a checker that raises on bad input and hands its argument back unchanged is
+            # called for the check, not for the value
+            if any(isinstance(x, ast.Raise) for x in walk_local(f.node)) and all(
+                    isinstance(r.value, ast.Name) and r.value.id in f.params()
+                    and not any(isinstance(a_, (ast.Assign, ast.AugAssign)) and any(
+                        isinstance(t_, ast.Name) and t_.id == r.value.id for t_ in ast.walk(a_)) for a_ in walk_local(f.node))
+                    for r in rets):
+                continue
             # side effects: stores to attributes / globals / mutation of parameters / calls on self
             effect = False
             # names that may refer to (part of) an argument object
